@@ -169,11 +169,17 @@ def run_case(case):
                         continue
                     for which, idx in (("min", 0), ("max", 1)):
                         lst = s[which][name]
-                        if lst is None or len(lst) <= gi:
-                            continue        # the API gives [None] when any row group lacks the stat
-                        api_v = lst[gi]
-                        if api_v is None:
+                        raw_everywhere = all(((c_.get("statistics") or {}).get(which) is not None or (c_.get("statistics") or {}).get(which + "_value") is not None)
+                                             for c_ in col.chunks)
+                        if lst is None or len(lst) <= gi or lst[gi] is None:
+                            # the API gives [None] for the whole column when any row group lacks the stat; but a bound that every chunk
+                            # of the column stores must be exposed
+                            if raw_everywhere:
+                                res["failures"].append({"kind": "api_statistic_missing_although_stored", "which": which, "column": name, "row_group": gi,
+                                                        "stored": repr(truth[(name, gi)][idx])[:60], "ptype": ptype, "logical": lk[0],
+                                                        "col_kind": kinds.get(name), **ctx0})
                             continue
+                        api_v = lst[gi]
                         want = R.convert_value(truth[(name, gi)][idx], ptype, lk)
                         got = api_canon(api_v, lk, ptype)
                         counters["api_stats_compared"] = counters.get("api_stats_compared", 0) + 1
